@@ -421,6 +421,9 @@ func parseCtl(data string, memoizer plugintypes.Memoizer) (ctlFunctionType, stri
 		if len(rxPattern) == 0 {
 			return ctlUnknown, "", 0, "", nil, errors.New("empty regex pattern in ctl collection key")
 		}
+		// same treatment as a regex key written in a rule's target list: for collections whose
+		// keys are matched without regard to case the pattern is lower-cased too
+		rxPattern = corazawaf.KeyRegexSource(collection, rxPattern)
 		var err error
 		if memoizer != nil {
 			re, compileErr := memoizer.Do("regexp:"+rxPattern, func() (any, error) { return regexp.Compile(rxPattern) })
